@@ -366,8 +366,19 @@ def run_stab(ctx, d):
     ctx.count("stab_explainer", d["explainer"])
     per = calls[1:] if d["base_given"] is False else calls
     # exactly nb_samples neighbours per sample, each within [0, radius) of it, labels repeated
-    ok_nb = len(per) == n and all(a.shape[0] == nb for a, _ in per)
-    ctx.check_prop("nb-neighbours-per-sample", ok_nb, d, {"calls": [int(a.shape[0]) for a, _ in per], "nb": nb, "N": n})
+    # (the explainer may be called on the neighbours of a sample in one call or in several smaller ones: the
+    #  property fixes their NUMBER per sample, not how they are grouped - calls are regrouped sample by sample)
+    sizes = [int(a.shape[0]) for a, _ in per]
+    ok_nb = sum(sizes) == n * nb and len(per) >= n
+    if ok_nb and any(sz != nb for sz in sizes):
+        rows = np.concatenate([a for a, _ in per], 0)
+        labs = np.concatenate([l_ for _, l_ in per], 0)
+        # a call must not straddle two samples
+        bounds = np.cumsum(sizes)
+        ok_nb = all(((k_ + 1) * nb) in set(bounds.tolist()) for k_ in range(n))
+        if ok_nb:
+            per = [(rows[k_ * nb:(k_ + 1) * nb], labs[k_ * nb:(k_ + 1) * nb]) for k_ in range(n)]
+    ctx.check_prop("nb-neighbours-per-sample", ok_nb, d, {"calls": sizes, "nb": nb, "N": n})
     if not ok_nb:
         ctx.case(d, False)
         return
